@@ -114,7 +114,7 @@ def correspond(ctx):
     # every tabulation target writes the grid fixed by the two given values (nr != nrho on purpose)
     ntargets = 0
     for target in ALL_TARGETS:
-        for (k, krho) in ([(8 - 1, 5)] if not ctx['thorough'] else [(8 - 1, 5), (12 - 1, 3), (16 - 1, 9)]):
+        for (k, krho) in ([(8 - 1, 5)] if not ctx['thorough'] else [(8 - 1, 5), (12 - 1, 3), (16 - 1, 9)]) + ([(14 - 1, 6), (11 - 1, 5)] if target.startswith('DL_POLY_EAM') else []):     # TABEAM: row counts that leave a last line of 1, 2 and 3 values
             ntargets += 1
             try: got = target_grid(target, k, krho)
             except Exception as e:
@@ -229,7 +229,10 @@ def target_grid(target, k, krho, step='0.25', steprho='0.5'):
     t = '[Tabulation]\ntarget : %s\ncutoff : %s\ndr : %s\n' % (target, D(step) * k, step)
     if eam: t += 'cutoff_rho : %s\ndrho : %s\n' % (D(steprho) * krho, steprho)
     t += '[Pair]\nAl-Al : as.constant 1.0\n'
-    if eam:
+    if eam and target.startswith('DL_POLY_EAM'):
+        # two species, the pairs Al-Cu and Cu-Cu (and the cross densities) not declared: their blocks are zero-filled on the same grid
+        t += '[EAM-Embed]\nAl : as.constant 2.0\nCu : as.constant 2.5\n[EAM-Density]\n' + ('Al->Al : as.constant 3.0\nCu->Cu : as.constant 3.5\n' if target.endswith('_fs') else 'Al : as.constant 3.0\nCu : as.constant 3.5\n')
+    elif eam:
         t += '[EAM-Embed]\nAl : as.constant 2.0\n[EAM-Density]\n' + ('Al->Al : as.constant 3.0\n' if target.endswith('_fs') else 'Al : as.constant 3.0\n')
     if target == 'eam_adp': t += '[EAM-ADP-Dipole]\nAl-Al : as.constant 4.0\n[EAM-ADP-Quadrupole]\nAl-Al : as.constant 5.0\n'
     out = sc.tabulate(t)
@@ -243,10 +246,12 @@ def target_grid(target, k, krho, step='0.25', steprho='0.5'):
         want = nrho + nr + nr + (2 * nr if target == 'eam_adp' else 0)
         if len(body) != want: return ('body has %d values, header implies %d' % (len(body), want), None)
     elif target.startswith('DL_POLY_EAM'):
-        for l in out.split('\n'):
-            w = l.split()
-            if w and w[0] == 'pair': nr = int(w[3])
-            if w and w[0] == 'embe': nrho = int(w[2])
+        import p_c05
+        declared, blocks = p_c05.parse_tabeam(out)
+        for b in blocks:
+            if len(b['vals']) != b['n']: return ('block %s %s announces %d values and holds %d' % (b['kind'], ' '.join(b['species']), b['n'], len(b['vals'])), None)
+            if b['kind'] == 'embe': nrho = b['n'] if nrho in (None, b['n']) else -1
+            else: nr = b['n'] if nr in (None, b['n']) else -1
     else:
         txt = ec.workbook_text(out)
         sheets = {x.split('\n')[0]: x.split('\n')[1:-1] for x in txt.split('#sheet ')[1:]}
